@@ -202,25 +202,46 @@ func runC34(c *Ctx) {
 		c.Require("C34.O2", res, AnyReturn, "every path of shard.set replaces the key's value (no stale value survives a Set)", []string{"value-installed"})
 	}
 	// O1: read entry publishes before waking waiters
-	for _, name := range []string{"cache.(*readEntry).setReadValue", "cache.(*readEntry).setReadError"} {
-		fn := c.Fn("C34.O1", name)
+	for _, spec := range []struct {
+		name   string
+		fields []string // what a woken waiter reads
+	}{
+		{"cache.(*readEntry).setReadValue", []string{"v", "isReading"}},
+		{"cache.(*readEntry).setReadError", []string{"isReading"}},
+	} {
+		fn := c.Fn("C34.O1", spec.name)
 		if fn == nil {
 			continue
 		}
-		fl := NewFlow(c.P).After("held:e.mu", MethodOn("Lock", "recv.mu")).KillAfter("held:e.mu", MethodOn("Unlock", "recv.mu")).
-			After("result-published", Pred("store to e.mu.*", func(in ssa.Instruction) bool {
+		fl := NewFlow(c.P).After("held:e.mu", MethodOn("Lock", "recv.mu")).KillAfter("held:e.mu", MethodOn("Unlock", "recv.mu"))
+		need := []string{"held:e.mu"}
+		for _, f := range spec.fields {
+			f := f
+			fl.After("stored:"+f, Pred("store to e.mu."+f, func(in ssa.Instruction) bool {
 				st, ok := in.(*ssa.Store)
-				return ok && strings.Contains(pathOf(st.Addr), "recv.mu.")
+				return ok && pathOf(st.Addr) == "recv.mu."+f
 			}))
+			need = append(need, "stored:"+f)
+		}
 		fl.MaxDepth = 0
 		res := fl.Analyze(fn, emptyState())
+		// close(ch), `ch <- x`, and a send arm of a select (the non-blocking wake in setReadError)
 		wake := Or(BuiltinCall("close", "recv.mu.ch"), Pred("send on e.mu.ch", func(in ssa.Instruction) bool {
-			s, ok := in.(*ssa.Send)
-			return ok && strings.Contains(pathOf(s.Chan), "recv.mu.ch")
+			switch x := in.(type) {
+			case *ssa.Send:
+				return pathOf(x.Chan) == "recv.mu.ch"
+			case *ssa.Select:
+				for _, st := range x.States {
+					if st.Dir == types.SendOnly && pathOf(st.Chan) == "recv.mu.ch" {
+						return true
+					}
+				}
+			}
+			return false
 		}))
-		k := c.Require("C34.O1", res, wake, "waiters are woken only after the result was stored, under the entry mutex", []string{"held:e.mu", "result-published"})
+		k := c.Require("C34.O1", res, wake, "waiters are woken only after the result was stored, under the entry mutex", need)
 		if k == 0 {
-			c.Note("C34.O1: no channel wake-up found in %s", name)
+			c.Unresolved("C34.O1", "no channel wake-up found in "+spec.name)
 		}
 	}
 }
